@@ -247,20 +247,19 @@ func mergeNetworks(c any, o any, path tree.Path) (any, error) {
 func mergeExtraHosts(c any, o any, p tree.Path) (any, error) {
 	right := convertIntoSequence(c)
 	left := convertIntoSequence(o)
-	// Rewrite content of left slice to remove duplicate elements
-	i := 0
+	// a new sequence: neither side is rewritten, both may be merged again (a service extended twice)
+	merged := make([]any, 0, len(right)+len(left))
+	merged = append(merged, right...)
 	for _, v := range left {
 		if _, ok := v.(string); !ok {
 			return nil, fmt.Errorf("%s must be a mapping or a list of strings", p)
 		}
+		// keep only not duplicated elements from left slice
 		if !slices.Contains(right, v) {
-			left[i] = v
-			i++
+			merged = append(merged, v)
 		}
 	}
-	// keep only not duplicated elements from left slice
-	left = left[:i]
-	return append(right, left...), nil
+	return merged, nil
 }
 
 func mergeToSequence(c any, o any, _ tree.Path) (any, error) {
